@@ -11,6 +11,7 @@ from symfc.basis_sets import FCBasisSetO3
 from symfc.solvers.solver_O2O3 import reshape_nNN333_nx_to_N3N3_n3nx, set_disps_N3N3
 from symfc.utils.eig_tools import dot_product_sparse
 from symfc.utils.solver_funcs import get_batch_slice, solve_linear_equation
+from symfc.utils._verif_hooks import verif_int
 
 from .solver_base import FCSolverBase
 
@@ -154,6 +155,7 @@ def prepare_normal_equation_O3(
 
     n_batch = (N // 256 + 1) * (n_compr_fc3 // 30000 + 1)
     n_batch = min(N, n_batch)
+    n_batch = min(N, verif_int("SYMFC_VERIF_SOLVER_NBATCH", n_batch))
     begin_batch_atom, end_batch_atom = get_batch_slice(N, N // n_batch)
     begin_batch, end_batch = get_batch_slice(disps.shape[0], batch_size)
 
